@@ -1,16 +1,23 @@
 import AasVerif.Model.Xsd
 import AasVerif.Props.C13
+import AasVerif.Lemmas.XsdSemConv
+import AasVerif.Lemmas.XsdFacetsB
+import AasVerif.Lemmas.PatternShape
+import AasVerif.Gen.PatternShape
 /-!
 # C14 — XSD enforces the constraints a class declares itself (value level)
 
 The constraints are those `infer_for_schema` inferred for the class that specifies the property
 (or for its constrained primitive): they are the input.  `simpleType`/`listOccurs` model what the
 generator writes for them; `FacetsValid`/`occursValid` is the validity of XSD facets.
+The pattern facet: `pattern_enforced` (a single pattern `^ body $` without inner anchors is enforced
+exactly), `pattern_enforced_full_fails` (with an anchor inside the body the written pattern accepts
+texts which the meta-model pattern rejects — replayed on the real generator by the check).
 The element level (unknown / misplaced / missing elements) is checked by the direct oracle with the
 independent validator only — planned, not proved.
 -/
 namespace AasVerif.Props.C14
-open AasVerif AasVerif.Retree AasVerif.XsdPattern AasVerif.Xsd
+open AasVerif AasVerif.Retree AasVerif.XsdPattern AasVerif.Xsd AasVerif.PatternShape
 
 /-- **Length is enforced.** Whatever facets are written for a value whose inferred length bounds are
 `mn`/`mx`: a text whose length breaks the bounds is rejected. -/
@@ -116,9 +123,184 @@ theorem valid_value_accepted (prims : List (String × String)) (xp : Text) (prim
       exact ⟨x, hx, hall s hn hm⟩
     · cases h
 
+/-! ### The pattern facet -/
+
+/-- **C14, pattern (pattern_subset).** For a pattern which the front end parses as `^ body $` with no
+further anchor inside `body` (groups included): every text which an XSD processor accepts against the
+written pattern is matched by the meta-model pattern — no restriction on the text. -/
+theorem pattern_subset (p t : Text) (body : List Term) (hp : parse [.str p] = .ok (anchoredAround body))
+    (hna : naTerms body = true)
+    (ht : translate Gen.Xsd.xsdLiteral Gen.Xsd.xsdRange p = .ok t) :
+    ∃ x, XsdRe.read t = .ok x ∧ ∀ s, XsdRe.Matches x s → FullMatch (anchoredAround body) s :=
+  ⟨_, C13.translate_reads_back p t _ hp (by simp [anchoredAround, Union.uniates]) ht,
+    fun s hm => conv_anchored body hna s hm⟩
+
+/-- **C14, pattern is enforced.** If the facets written for a value with the single inferred pattern
+`p = ^ body $` (no inner anchors) are `.restricted ty pt a b`, then a text which breaks the pattern is
+not valid against the facets. -/
+theorem pattern_enforced (prims : List (String × String)) (xp : Text) (prim ty : String)
+    (mn mx : Option Nat) (pat : Text) (body : List Term) (pt : Option Text) (a b : Option Nat) (s : Text)
+    (hpx : (pat != xp) = true) (hp : parse [.str pat] = .ok (anchoredAround body)) (hna : naTerms body = true)
+    (h : simpleType Gen.Xsd.xsdLiteral Gen.Xsd.xsdRange prims xp prim mn mx [pat] = .restricted ty pt a b)
+    (hbreak : ¬ FullMatch (anchoredAround body) s) : ¬ FacetsValid pt a b s := by
+  intro hv
+  unfold simpleType at h
+  split at h
+  · cases h
+  · simp only [List.filter_cons, hpx, if_true, List.filter_nil] at h
+    split at h
+    · next t ht =>
+      injection h with _ hpt _ _
+      subst hpt
+      obtain ⟨x, hx, hall⟩ := pattern_subset pat t body hp hna ht
+      obtain ⟨x', hx', hm⟩ := hv.2 t rfl
+      rw [hx] at hx'
+      injection hx' with hx'
+      subst hx'
+      exact hbreak (hall s hm)
+    · cases h
+
+/-- … and together with `C13.pattern_superset`: on texts without line breaks the written pattern and
+the meta-model pattern accept exactly the same texts. -/
+theorem pattern_exact (p t : Text) (body : List Term) (hp : parse [.str p] = .ok (anchoredAround body))
+    (hna : naTerms body = true)
+    (ht : translate Gen.Xsd.xsdLiteral Gen.Xsd.xsdRange p = .ok t) :
+    ∃ x, XsdRe.read t = .ok x ∧ ∀ s, NoLB s → (XsdRe.Matches x s ↔ FullMatch (anchoredAround body) s) := by
+  obtain ⟨x, hx, hsub⟩ := pattern_subset p t body hp hna ht
+  obtain ⟨x', hx', hsup⟩ := C13.pattern_superset p t _ hp (by simp [anchoredAround, Union.uniates]) ht
+  rw [hx] at hx'
+  injection hx' with hx'
+  subst hx'
+  exact ⟨x, hx, fun s hn => ⟨hsub s, hsup s hn⟩⟩
+
+/-- the hypotheses of `pattern_subset` are met by an ordinary pattern: `^a[b-c]*(d|e)$` -/
+example : ∃ body t, parse [.str [94, 97, 91, 98, 45, 99, 93, 42, 40, 100, 124, 101, 41, 36]] = .ok (anchoredAround body) ∧
+    naTerms body = true ∧
+    translate Gen.Xsd.xsdLiteral Gen.Xsd.xsdRange [94, 97, 91, 98, 45, 99, 93, 42, 40, 100, 124, 101, 41, 36] = .ok t :=
+  ⟨[.mk (.char ⟨97, false⟩) none,
+    .mk (.set false [⟨⟨98, false⟩, some ⟨99, false⟩⟩]) (some ⟨false, 0, none⟩),
+    .mk (.group (.mk [.mk [.mk (.char ⟨100, false⟩) none], .mk [.mk (.char ⟨101, false⟩) none]])) none], _, rfl, rfl, rfl⟩
+
+/-- *table*: the front end's pattern check (generated from `_verify_patterns_anchored_at_start_and_end`)
+holds at most one `^` and at most one `$` to account. -/
+theorem front_end_counts_anchors :
+    Check.count .start 1 ∈ Gen.PatternShape.checks ∧ Check.count .stop 1 ∈ Gen.PatternShape.checks := by decide
+
+/-- **C14, pattern is enforced for every pattern the front end lets through.** If the front end's pattern
+check reports no error for the pattern text `pat`, and the facets written for a value with that single
+inferred pattern are `.restricted ty pt a b`, then a text which breaks the pattern (does not match it as a
+whole) is not valid against the facets — for every text. -/
+theorem front_end_pattern_enforced (prims : List (String × String)) (xp : Text) (prim ty : String)
+    (mn mx : Option Nat) (pat : Text) (r : Regex) (pt : Option Text) (a b : Option Nat) (s : Text)
+    (hpx : (pat != xp) = true) (hp : parse [.str pat] = .ok r)
+    (hshape : patternErrors Gen.PatternShape.checks pat = [])
+    (h : simpleType Gen.Xsd.xsdLiteral Gen.Xsd.xsdRange prims xp prim mn mx [pat] = .restricted ty pt a b)
+    (hbreak : ¬ FullMatch r s) : ¬ FacetsValid pt a b s := by
+  unfold patternErrors at hshape
+  rw [hp] at hshape
+  obtain ⟨body, hr, hna⟩ := shape_ok_anchored _ front_end_counts_anchors.1 front_end_counts_anchors.2 r
+    (C16.parse_outputs_inRange _ r hp) hshape
+  subst hr
+  exact pattern_enforced prims xp prim ty mn mx pat body pt a b s hpx hp hna h hbreak
+
+/-- non-vacuity: `^a[b-c]*(d|e)$` passes the front end's check; `^a$b$` does not (second `$`). -/
+example : patternErrors Gen.PatternShape.checks [94, 97, 91, 98, 45, 99, 93, 42, 40, 100, 124, 101, 41, 36] = [] := by
+  decide +kernel
+example : patternErrors Gen.PatternShape.checks [94, 97, 36, 98, 36] = [.tooMany .stop] := by decide +kernel
+
+/-- **The statement without the side condition fails**: `^a$b$` is parsed, has a further anchor inside
+and matches no text, and yet the written pattern is `ab`, which accepts the text `ab`. -/
+theorem pattern_enforced_full_fails :
+    ∃ r, parse [.str [94, 97, 36, 98, 36]] = .ok r ∧
+      translate Gen.Xsd.xsdLiteral Gen.Xsd.xsdRange [94, 97, 36, 98, 36] = .ok [97, 98] ∧
+      XsdRe.matchB (normUnion (raUnion r)) [97, 98] = true ∧
+      ¬ FullMatch r [97, 98] := by
+  refine ⟨_, rfl, rfl, by decide +kernel, ?_⟩
+  intro h
+  unfold FullMatch at h
+  rw [MUnion_iff] at h
+  obtain ⟨ts, hm, ht⟩ := h
+  simp only [List.mem_singleton] at hm
+  injection hm with hm
+  subst hm
+  -- ^ a $ b $ : the inner `$` needs an empty rest (or a line feed), but `b` is still to come
+  rw [MTerms_cons_iff] at ht
+  obtain ⟨s₁, s₂, hs, h1, h2⟩ := ht
+  have h1' := MValue_start_iff.mp (MTerm_plain_iff.mp h1)
+  obtain ⟨_, rfl⟩ := h1'
+  rw [MTerms_cons_iff] at h2
+  obtain ⟨a₁, a₂, ha, h3, h4⟩ := h2
+  have h3' := MValue_char_iff.mp (MTerm_plain_iff.mp h3)
+  subst h3'
+  rw [MTerms_cons_iff] at h4
+  obtain ⟨b₁, b₂, hb, h5, h6⟩ := h4
+  have h5' := MValue_stop_iff.mp (MTerm_plain_iff.mp h5)
+  obtain ⟨rfl, h5''⟩ := h5'
+  simp at hs ha hb
+  subst hb
+  subst ha
+  simp at hs
+  subst hs
+  simp at h5''
+
 /-- *table*: the XML-character pattern which `_translate_to_simple_type` skips is the one of the
 meta-model conventions. -/
 theorem xml_pattern_constant : Gen.Xsd.xmlCharPattern =
     Text.ofString "^[\\x09\\x0A\\x0D\\x20-\\uD7FF\\uE000-\\uFFFD\\U00010000-\\U0010FFFF]*$" := by decide
+
+/-! ### The same on the executable matcher
+
+`XsdRe.matchB` is the matcher the driver runs (C13 correspondence, stream `xsd-match`); by
+`C13.read_matchB_decides` it decides `XsdRe.Matches` on every tree the reader produces, so the facet
+validity the theorems above speak about is computed by `facetsValidB`. -/
+
+/-- **Facet validity is decided by the executable matcher.** -/
+theorem facets_validity_decided (pattern : Option Text) (mn mx : Option Nat) (s : Text) :
+    facetsValidB pattern mn mx s = true ↔ FacetsValid pattern mn mx s :=
+  facetsValidB_iff pattern mn mx s
+
+/-- `pattern_subset` on the matcher: what the matcher accepts for the written pattern, the meta-model
+pattern matches as a whole. -/
+theorem pattern_subset_matchB (p t : Text) (body : List Term) (hp : parse [.str p] = .ok (anchoredAround body))
+    (hna : naTerms body = true)
+    (ht : translate Gen.Xsd.xsdLiteral Gen.Xsd.xsdRange p = .ok t) :
+    ∃ x, XsdRe.read t = .ok x ∧ ∀ s, XsdRe.matchB x s = true → FullMatch (anchoredAround body) s := by
+  obtain ⟨x, hx, hall⟩ := pattern_subset p t body hp hna ht
+  exact ⟨x, hx, fun s hm => hall s (XsdRe.matchB_sound x s hm)⟩
+
+/-- `pattern_exact` on the matcher: on texts without line breaks the matcher's verdict for the written
+pattern IS the verdict of the meta-model pattern. -/
+theorem pattern_exact_matchB (p t : Text) (body : List Term) (hp : parse [.str p] = .ok (anchoredAround body))
+    (hna : naTerms body = true)
+    (ht : translate Gen.Xsd.xsdLiteral Gen.Xsd.xsdRange p = .ok t) :
+    ∃ x, XsdRe.read t = .ok x ∧ ∀ s, NoLB s → (XsdRe.matchB x s = true ↔ FullMatch (anchoredAround body) s) := by
+  obtain ⟨x, hx, hall⟩ := pattern_exact p t body hp hna ht
+  exact ⟨x, hx, fun s hn => (C13.read_matchB_decides t x hx s).trans (hall s hn)⟩
+
+/-- `front_end_pattern_enforced`, computed: the executable facet validity answers `false` for every text
+which breaks a pattern the front end lets through. -/
+theorem front_end_pattern_enforced_computed (prims : List (String × String)) (xp : Text) (prim ty : String)
+    (mn mx : Option Nat) (pat : Text) (r : Regex) (pt : Option Text) (a b : Option Nat) (s : Text)
+    (hpx : (pat != xp) = true) (hp : parse [.str pat] = .ok r)
+    (hshape : patternErrors Gen.PatternShape.checks pat = [])
+    (h : simpleType Gen.Xsd.xsdLiteral Gen.Xsd.xsdRange prims xp prim mn mx [pat] = .restricted ty pt a b)
+    (hbreak : ¬ FullMatch r s) : facetsValidB pt a b s = false := by
+  have := front_end_pattern_enforced prims xp prim ty mn mx pat r pt a b s hpx hp hshape h hbreak
+  rw [← facetsValidB_iff] at this
+  simpa using this
+
+/-- `valid_value_accepted`, computed. -/
+theorem valid_value_accepted_computed (prims : List (String × String)) (xp : Text) (prim ty : String)
+    (mn mx : Option Nat) (pat : Text) (r : Regex) (p : Option Text) (a b : Option Nat) (s : Text)
+    (hpx : (pat != xp) = true) (hp : parse [.str pat] = .ok r) (hne : r.uniates ≠ [])
+    (h : simpleType Gen.Xsd.xsdLiteral Gen.Xsd.xsdRange prims xp prim mn mx [pat] = .restricted ty p a b)
+    (hlen : lengthOk mn mx s.length = true) (hn : NoLB s) (hm : FullMatch r s) : facetsValidB p a b s = true :=
+  (facetsValidB_iff p a b s).mpr (valid_value_accepted prims xp prim ty mn mx pat r p a b s hpx hp hne h hlen hn hm)
+
+/-- the computed validity on concrete facets: `a[b-c]*` with length 1..3 accepts `abc`, rejects `abd`
+(pattern) and `abcb` (length) -/
+example : facetsValidB (some [97, 91, 98, 45, 99, 93, 42]) (some 1) (some 3) [97, 98, 99] = true ∧
+    facetsValidB (some [97, 91, 98, 45, 99, 93, 42]) (some 1) (some 3) [97, 98, 100] = false ∧
+    facetsValidB (some [97, 91, 98, 45, 99, 93, 42]) (some 1) (some 3) [97, 98, 99, 98] = false := by decide
 
 end AasVerif.Props.C14
